@@ -41,6 +41,14 @@ def make_fn(rng, nargs, addrs):
     return ["fn", p]
 
 
+def sub_latents(rng, latent):
+    """the addresses a custom proposal covers: all latents, or (half of the time) a strict non-empty subset -
+    the uncovered latents are then drawn by the target's own generate"""
+    if len(latent) >= 2 and rng.random() < 0.5:
+        return sorted(rng.sample(latent, rng.randint(1, len(latent) - 1)))
+    return list(latent)
+
+
 def wrap_proposal(g, ndrop):
     inner = build(g).source.value
     return gen(lambda *a: inner(*a[ndrop:]))
@@ -79,7 +87,7 @@ def make_case(rng):
     cons0 = {name(a): rng.randint(0, 2) for a in obs}
     ops = []
     use_prop = rng.random() < 0.5 and latent
-    p0 = make_fn(rng, nargs0, latent) if use_prop else None
+    p0 = make_fn(rng, nargs0, sub_latents(rng, latent)) if use_prop else None
     ops.append({"op": "init", "target": t0, "args": args0, "cons": cons0, "prop": p0})
     cur_target, cur_latent = t0, latent
     for _ in range(rng.randint(0, 4)):
@@ -90,7 +98,7 @@ def make_case(rng):
             t1 = make_fn(rng, 1, rng.sample(addrs, len(addrs)))
             cons1 = {name(a): rng.randint(0, 2) for a in obs2}
             usep = rng.random() < 0.5 and lat2
-            p1 = make_fn(rng, 1, lat2) if usep else None
+            p1 = make_fn(rng, 1, sub_latents(rng, lat2)) if usep else None
             ops.append({"op": "extend", "target": t1, "cons": cons1, "prop": p1})
             cur_target, cur_latent = t1, lat2
         elif r < 0.7 and cur_latent:
@@ -129,6 +137,53 @@ def make_case(rng):
     return {"n": n, "ops": ops, "snaps": snaps}
 
 
+def rsmc_case(rng):
+    """rejuvenation_smc end to end (return_all_particles=True): a feedback model whose return value is the
+    next step's argument, per-step observations, optional transition proposal, optional mh rejuvenation"""
+    import jax.tree_util as jtu
+    n = rng.choice([1, 2, 4, 6, 8, 12])
+    skew = rng.random() < 0.5
+    T = rng.choice([4, 5, 6]) if skew else rng.choice([2, 3, 4])
+    naddr = 4 if skew else rng.choice([2, 3])
+    addrs = list(range(naddr))
+    # 'skew' cases observe three sites per step over more steps so that the ESS trigger fires
+    obs = sorted(rng.sample(addrs, 3 if skew else rng.randint(1, naddr - 1)))
+    latent = [a for a in addrs if a not in obs]
+    tgt = make_fn(rng, 1, rng.sample(addrs, len(addrs)))
+    use_prop = rng.random() < 0.4
+    prop = make_fn(rng, 1, sub_latents(rng, latent)) if use_prop else None
+    kernel = rng.random() < 0.35
+    nmoves = rng.choice([1, 2])
+    arg0 = rng.randint(0, 2)
+    obs_seq = {name(a): [rng.randint(0, 2) for _ in range(T)] for a in obs}
+    c = {"kind": "rsmc", "n": n, "T": T, "target": tgt, "prop": prop, "kernel": kernel, "moves": nmoves, "arg0": arg0}
+
+    # the return value is fed back as the next argument: keep its type equal to the initial argument's
+    inner_t = build(tgt).source.value
+    model = gen(lambda a: jnp.asarray(inner_t(a), dtype=jnp.float32))
+
+    def run():
+        return smc.rejuvenation_smc(
+            model,
+            transition_proposal=wrap_proposal(prop, 2) if prop else None,
+            mcmc_kernel=const(lambda tr: mh(tr, sel(name(latent[0])))) if kernel else None,
+            observations={k: jnp.asarray(v, dtype=jnp.int32) for k, v in obs_seq.items()},
+            initial_model_args=(jnp.float32(arg0),),
+            n_particles=const(n),
+            return_all_particles=const(True),
+            n_rejuvenation_moves=const(nmoves),
+        )
+    allp = seed(run)(jax.random.key(rng.randrange(10 ** 6)))
+    snaps = []
+    for t in range(T):
+        pc_t = jtu.tree_map(lambda x: x[t], allp)
+        snaps.append(snapshot(pc_t, tgt))
+    c["snaps"] = snaps
+    c["obss"] = [canon_cm(tgt, {k: v[t] for k, v in obs_seq.items()}) for t in range(T)]
+    c["resampled"] = [all(p["lw"] == 0 for p in s_["parts"]) for s_ in snaps]
+    return c
+
+
 def main():
     out, sd, n = sys.argv[1], int(sys.argv[2]), int(sys.argv[3])
     rng = random.Random(sd)
@@ -138,7 +193,7 @@ def main():
         tries += 1
         st = rng.getstate()
         try:
-            cases.append(make_case(rng))
+            cases.append(rsmc_case(rng) if tries % 3 == 0 else make_case(rng))
         except Exception as e:  # noqa: BLE001
             errs.append(type(e).__name__ + ": " + str(e)[:300])
     json.dump({"cases": cases, "errs": errs}, open(out, "w"))
